@@ -1,0 +1,67 @@
+//go:build verif
+
+// Contracts for package keyvaluestorage, checked by /verif (govc). Comment-only.
+package keyvaluestorage
+
+// ---------------------------------------------------------------------------------------------
+// C12: the remote write path (SetRaw) keeps only values whose signing account held write
+// permission at the ACL record the value cites (and whose read key is known); everything else is
+// marked and discarded before the inner storage is called.
+//
+// The ACL state is read under the ACL read lock: its query methods are functions of their arguments.
+//@ func iface list.AclList.RLock
+//@   modifies nothing
+//@ func iface list.AclList.RUnlock
+//@   modifies nothing
+//@ func iface list.AclList.AclState
+//@   pure
+//@   ensures result != nil
+//@ func (*github.com/anyproto/any-sync/commonspace/object/acl/list.AclState).PermissionsAtRecord
+//@   pure
+//@   trusted
+//@ func (*github.com/anyproto/any-sync/commonspace/object/acl/list.AclState).ReadKeyForAclId
+//@   pure
+//@   trusted
+//@ func github.com/anyproto/any-sync/util/crypto.DecodeAccountAddress
+//@   pure
+//@ func iface innerstorage.KeyValueStorage.Diff
+//@   pure
+//@   ensures result != nil
+//@ func iface ldiff.CompareDiff.Element
+//@   modifies nothing
+//@ func iface innerstorage.KeyValueStorage.Set
+//@   modifies nothing
+//@ func iface syncstorage.SyncClient.Broadcast
+//@   modifies nothing
+//@ func iface keyvaluestorage.Indexer.Index
+//@   modifies nothing
+//@ package encoding/binary
+//@ func (bigEndian).PutUint64
+//@   modifies object arg1 kinds uint8
+//@ package github.com/anyproto/any-sync/util/slice
+// DiscardFromSlice compacts in place: the result is a prefix of the same backing array and every
+// kept element is one of the old elements (at the same or a later position).
+//@ func DiscardFromSlice
+//@   modifies object arg0
+//@   ensures len(result) <= len(arg0) && baseof(result) == baseof(arg0)
+//@   ensures forall k int :: 0 <= k && k < len(result) ==> (exists j int :: k <= j && j < len(arg0) && result[k] == old(arg0[j]))
+//@ package github.com/anyproto/any-sync/commonspace/object/keyvalue/keyvaluestorage
+// readKeysFromAclState only caches derived keys in the storage object and its key map
+//@ func (*storage).readKeysFromAclState
+//@   trusted
+//@   modifies object s kinds iface
+//@   modifies object s.readKeys
+//@   ensures s.inner == old(s.inner) && s.syncClient == old(s.syncClient) && s.indexer == old(s.indexer) && s.aclList == old(s.aclList)
+
+//@ def writerOK(state, kv) = state.PermissionsAtRecord(kv.AclId, crypto.DecodeAccountAddress(kv.Identity)) == 1 || state.PermissionsAtRecord(kv.AclId, crypto.DecodeAccountAddress(kv.Identity)) == 2 || state.PermissionsAtRecord(kv.AclId, crypto.DecodeAccountAddress(kv.Identity)) == 3
+
+//@ func (*storage).SetRaw
+//@   requires s != nil && s.aclList != nil && s.inner != nil && s.syncClient != nil && s.indexer != nil && len(s.byteRepr) == 8
+//@   assumes forall k int :: 0 <= k && k < len(keyValue) ==> keyValue[k] != nil
+//@   loop 0:
+//@     invariant -1 <= rangeindex && rangeindex < len(keyValue) && rootof(keyValues) > 0
+//@     invariant s.aclList == old(s.aclList) && s.inner == old(s.inner) && s.syncClient == old(s.syncClient) && s.indexer == old(s.indexer)
+//@     invariant forall k int :: 0 <= k && k < len(keyValue) ==> keyValue[k] != nil
+//@   loop 1:
+//@     invariant -1 <= rangeindex && rangeindex < len(keyValues) && rootof(keyValues) > 0 && state != nil
+//@     invariant [kept_are_writers] forall k int :: 0 <= k && k <= rangeindex && keyValues[k].KeyPeerId != "" ==> writerOK(state, keyValues[k]) && state.PermissionsAtRecord#1(keyValues[k].AclId, crypto.DecodeAccountAddress(keyValues[k].Identity)) == nil
